@@ -320,6 +320,12 @@ package internal
 //   only if reading, the header pass, every copy, every directive's generation,
 //   re-parsing, formatting, the source-map pass and the final write all
 //   succeeded; the output file is written only then, and to the output path
+//@   ghost isReset bool = false
+//@   at call Reset 1 ghost isReset = true
+//@   at call Node 1 pre assert [C16] the-raw-text-is-discarded-before-the-formatted-file-is-written-to-the-buffer: isReset && dataof(arg0) == &buff
+//@   at call Fprintf 1 pre assert [C20] the-line-directive-header-is-written-only-in-source-map-mode: g.sourceMapped
+//@   at call resetMagicTokens 1 pre assert [C20] magic-tokens-are-resolved-only-in-source-map-mode: g.sourceMapped
+//@   at call WriteFile 2 pre assert [C20] the-plain-buffer-is-written-only-outside-source-map-mode: !g.sourceMapped
 //@   ghost failed bool = false
 //@   ghost written int = 0
 //@   at call ReadFile 1 ghost failed = failed || ret1 != nil
